@@ -23,7 +23,7 @@ COMMIT = '1.2.840.10008.1.20.1'
 COMMIT_INST = '1.2.840.10008.1.20.1.1'
 
 MIDS = [0, 1, 2, 255, 256, 32767, 32768, 65534, 65535]
-DOCUMENTED_FAILURE = {'echo': 0x0110, 'store': 0xC000, 'naction': 0x0110, 'nevent': 0x0110, 'get-scu': 0xC000}
+DOCUMENTED_FAILURE = {'echo': 0x0110, 'store': 0xC000, 'naction': 0x0110, 'nevent': 0x0110, 'get-scu': 0xC000, 'find': 0xC000, 'move': 0xC000}
 
 
 def ident(rng, n=0):
@@ -173,7 +173,8 @@ def commit_dataset(rng, n):
     return ds
 
 
-def run_naction(rng, policy, mid, ctx, outcome, n=3, split='mixed'):
+def run_naction(rng, policy, mid, ctx, outcome, n=3, split='mixed', inst=None):
+    inst = inst or COMMIT_INST
     ae = S.ScriptAE()
     ds = commit_dataset(rng, n)
     uids = [(SR, '1.2.3.9.%d' % i) for i in range(n)]
@@ -187,8 +188,8 @@ def run_naction(rng, policy, mid, ctx, outcome, n=3, split='mixed'):
     # the peer's NEXT request is already waiting on this association: it belongs to the handler loop, not to the service
     nxt = S.decode_message(S.request_bytes(0x0030, (mid + 1) % 65536, VERIF, has_data=False), b'', ctx)
     a = S.make_association(ae, policy, [(nxt, ctx)])
-    msg = S.decode_message(S.request_bytes(0x0130, mid, COMMIT, COMMIT_INST, extra=[(cmdset.TAG_ACTION_TYPE, cmdset.us(1))]), enc(ds), ctx)
-    tr = [{'ev': 'Req', 'svc': 'naction', 'req': {'type': 0x0130, 'ctx': ctx, 'mid': mid, 'cls': COMMIT, 'inst': COMMIT_INST}},
+    msg = S.decode_message(S.request_bytes(0x0130, mid, COMMIT, inst, extra=[(cmdset.TAG_ACTION_TYPE, cmdset.us(1))]), enc(ds), ctx)
+    tr = [{'ev': 'Req', 'svc': 'naction', 'req': {'type': 0x0130, 'ctx': ctx, 'mid': mid, 'cls': COMMIT, 'inst': inst}},
           {'ev': 'Handler', 'status': DOCUMENTED_FAILURE['naction'] if outcome == 'EHE' else 0}]
     sub = S.SubAssociation(ae, None)
     extra = {}
@@ -207,7 +208,9 @@ def run_naction(rng, policy, mid, ctx, outcome, n=3, split='mixed'):
         else:
             w = subs[0].sent[0]
             rep = pydicom.dataset.Dataset()
-            rd = dsref.decode(w.data, True, True)
+            rd = dsref.decode(w.data, False, True)           # the report association negotiated explicit VR little endian
+            if w.ctx != S.SUB_CTX:
+                extra['report_context'] = 'N-EVENT-REPORT sent on context %d; the association it is sent over negotiated %d for the class' % (w.ctx, S.SUB_CTX)
             got_ok = [(str(i.ReferencedSOPClassUID), str(i.ReferencedSOPInstanceUID)) for i in getattr(rd, 'ReferencedSOPSequence', [])]
             got_bad = [(str(i.ReferencedSOPClassUID), str(i.ReferencedSOPInstanceUID)) for i in getattr(rd, 'FailedSOPSequence', [])]
             if got_ok != [(c, i) for c, i in (ok or [])] or got_bad != [(c, i) for c, i, _ in (bad or [])]:
@@ -372,7 +375,7 @@ def run_nevent(rng, policy, mid, ctx, outcome, n=2, shape='success'):
 
 # ------------------------------------------------------------------ C-FIND / worklist
 
-def run_find_scp(rng, policy, mid, ctx, matches, worklist=False, max_len=16384, ctx_sop=None):
+def run_find_scp(rng, policy, mid, ctx, matches, worklist=False, max_len=16384, ctx_sop=None, fail_after=None):
     """matches: list of (pending status code, size hint).  max_len 'fit' / 'fit2': the maximum is chosen so that the
     first identifier fills exactly one / two fragments."""
     sop = MWL if worklist else FIND
@@ -386,17 +389,32 @@ def run_find_scp(rng, policy, mid, ctx, matches, worklist=False, max_len=16384, 
 
     def handler(context, ds):
         seen['query'] = enc(ds)
-        return iter(results)
+        if fail_after is None:
+            return iter(results)
+        if fail_after == 0:
+            raise exceptions.EventHandlingError('the application cannot answer')     # before anything is yielded
+
+        def gen():
+            for k, item in enumerate(results):
+                if k == fail_after:
+                    raise exceptions.EventHandlingError('the application fails while matching')
+                yield item
+        return gen()
     ae.script['find'] = handler
     a = S.make_association(ae, policy, max_len=max_len)
     msg = S.decode_message(S.request_bytes(0x0020, mid, sop), enc(query), ctx)
     tr = [{'ev': 'Req', 'svc': 'mwl' if worklist else 'find', 'req': {'type': 0x0020, 'ctx': ctx, 'mid': mid, 'cls': sop, 'inst': ''}}]
-    for ds, st in results:
+    for ds, st in (results if fail_after is None else results[:fail_after]):
         tr.append({'ev': 'Match', 'd': S.token(enc(ds)), 's': int(st)})
+    if fail_after is not None:
+        tr.append({'ev': 'Handler', 'status': DOCUMENTED_FAILURE['find']})
     # ctx_sop: the request names one find class, the context it arrives on was negotiated for another one
-    (sopclass.modality_work_list_scp if worklist else sopclass.qr_find_scp)(a, S.ctx_def(ctx, ctx_sop or sop), msg)
-    a.dul.drain()
     extra = {}
+    try:
+        (sopclass.modality_work_list_scp if worklist else sopclass.qr_find_scp)(a, S.ctx_def(ctx, ctx_sop or sop), msg)
+    except Exception as exc:      # noqa
+        extra['raised'] = 'the C-FIND provider raised %s: %s (handler %s)' % (type(exc).__name__, exc, 'fails after %r items' % fail_after if fail_after is not None else 'ok')
+    a.dul.drain()
     if seen.get('query') != enc(query):
         extra['query'] = 'the query data set reaching the handler differs from the one sent'
     return finish(tr + rsp_events(a), a), extra
@@ -510,7 +528,9 @@ def run_get_scu(rng, mid, ctx, plan, handler_outcomes, policy='eager', final=0x0
 
 # ------------------------------------------------------------------ C-MOVE provider
 
-def run_move_scp(rng, policy, mid, ctx, n, outcomes, known=True, supplied=None):
+def run_move_scp(rng, policy, mid, ctx, n, outcomes, known=True, supplied=None, fault=None):
+    """fault: None | 'handler' (the application's on_receive_move signals an event-handling error) | 'rejected' (the
+    destination refuses the association) | ('refused', k) (the destination did not accept the class of instance k)."""
     ae = S.ScriptAE()
     insts = [instance(rng, i) for i in range(n)]
     dest = {'aet': 'DEST', 'address': 'dest.example', 'port': 11112}
@@ -518,6 +538,8 @@ def run_move_scp(rng, policy, mid, ctx, n, outcomes, known=True, supplied=None):
     if supplied is not None:
         insts = insts[:supplied]
     ae.script['move'] = (dest if known else None, n, iter(insts))
+    if fault == 'handler':
+        ae.script['move'] = exceptions.EventHandlingError('the application cannot perform the move')
     a = S.make_association(ae, policy)
     query = ident(rng)
     msg = S.decode_message(S.request_bytes(0x0021, mid, MOVE, extra=[(cmdset.TAG_MOVE_DEST, b'DEST')]), enc(query), ctx)
@@ -530,6 +552,8 @@ def run_move_scp(rng, policy, mid, ctx, n, outcomes, known=True, supplied=None):
         return 1 + (hash(str(ds.SOPInstanceUID)) % 100000)
     for ds in insts:
         tr.append({'ev': 'Inst', 'd': tok(ds), 'ctx': 0, 'mid': 0, 'cls': '', 'inst': '', 'dest': 1, 'ehe': False})
+    if fault is not None:
+        tr.append({'ev': 'Handler', 'status': DOCUMENTED_FAILURE['move']})
     # interleave SubStore and Rsp in the order they really happened
     order = []
     ra = ae.request_association
@@ -541,12 +565,18 @@ def run_move_scp(rng, policy, mid, ctx, n, outcomes, known=True, supplied=None):
         if remote_ae is None:
             # what the real entity does with no destination: AssociationRequester.request() fails on remote_ae.get(...)
             raise AttributeError("'NoneType' object has no attribute 'get'")
+        if fault == 'rejected':
+            raise exceptions.AssociationRejectedError(1, 1, 7)
         sub = S.SubAssociation(ae, remote_ae)
         sub.store_status = list(codes)
         ae.sub_associations.append(sub)
         real_get = sub.get_scu
+        asked = [0]
 
         def get_scu(sop_class):
+            if isinstance(fault, tuple) and fault[0] == 'refused' and asked[0] == fault[1]:
+                raise exceptions.ClassNotSupportedError('SOP Class %s not supported as SCU' % sop_class)
+            asked[0] += 1
             svc_ = real_get(sop_class)
 
             def service(dataset, msg_id):
